@@ -16,7 +16,7 @@ import (
 func init() {
 	register("C20",
 		"that a k-th-weekday festival is reported exactly once per year (that needs the weekday arithmetic of C04) and the contents of the festival name tables.",
-		r20_1, r20_2, r20_3)
+		r20_1, r20_2, r20_3, r04_3)
 }
 
 func r20_1(c *Ctx, r *Report) {
@@ -35,73 +35,63 @@ func r20_1(c *Ctx, r *Report) {
 		r.bad(rule, construct, c.fnPos(fn), "not loop-free (undecided = fail)")
 		return
 	}
-	// the code variable: m*100 + d
-	isCode := func(v ssa.Value) bool {
-		s := symExpr(c, v, nil, map[ssa.Value]string{}, 0)
-		return s == "((100 * solar.month) + solar.day)" || s == "(solar.day + (100 * solar.month))"
-	}
-	// the index used for the XINGZUO lookup
-	var idxVal ssa.Value
+	// every XINGZUO[index] lookup; the one on the taken path gives the sign
+	var lookups []*ssa.IndexAddr
 	for _, b := range fn.Blocks {
 		for _, ins := range b.Instrs {
 			if ia, ok := ins.(*ssa.IndexAddr); ok && isLoadOfTable(ia.X, "SolarUtil.XINGZUO") {
-				idxVal = ia.Index
+				lookups = append(lookups, ia)
 			}
 		}
 	}
-	if idxVal == nil {
+	if len(lookups) == 0 {
 		r.bad(rule, construct, c.fnPos(fn), "no lookup XINGZUO[index] found (undecided = fail)")
 		return
 	}
 	dim := []int{31, 29, 31, 30, 31, 30, 31, 31, 30, 31, 30, 31}
 	sign := map[int]int{}
 	var problems []string
-	for m := 1; m <= 12; m++ {
-		for d := 1; d <= dim[m-1]; d++ {
-			code := int64(m*100 + d)
-			feasible := 0
-			for pi := range paths {
-				p := &paths[pi]
-				okp := true
-				for _, pc := range p.conds {
-					bo, isBin := pc.cond.(*ssa.BinOp)
-					if !isBin || !isCode(bo.X) {
-						problems = append(problems, "branch condition is not a comparison of month*100+day with a constant: "+pc.cond.String())
-						okp = false
-						break
-					}
-					k, isK := constInt(bo.Y)
-					if !isK {
-						problems = append(problems, "comparison with a non-constant")
-						okp = false
-						break
-					}
-					rel := 0
-					if code < k {
-						rel = -1
-					} else if code > k {
-						rel = 1
-					}
-					if cmpHolds(rel, bo.Op) != pc.truth {
-						okp = false
-						break
+	for m := 1; m <= 12 && len(problems) < 8; m++ {
+		for d := 1; d <= dim[m-1] && len(problems) < 8; d++ {
+			leaf := func(v ssa.Value) (interface{}, bool) {
+				if recv, f, ok := getterField(c, v); ok && recv == ssa.Value(fn.Params[0]) {
+					switch f {
+					case "Solar.month":
+						return int64(m), true
+					case "Solar.day":
+						return int64(d), true
 					}
 				}
-				if !okp {
-					continue
-				}
-				feasible++
-				iv := p.resolve(idxVal)
-				k, isK := constInt(iv)
-				if !isK {
-					problems = append(problems, "sign index is not a constant on some path")
-					continue
-				}
-				sign[m*100+d] = int(k)
+				return nil, false
 			}
-			if feasible != 1 {
-				problems = append(problems, fmt.Sprintf("%d-%d selects %d paths", m, d, feasible))
+			fp, msg := feasiblePaths(paths, leaf)
+			if msg != "" {
+				problems = append(problems, msg)
+				continue
 			}
+			if len(fp) != 1 {
+				problems = append(problems, fmt.Sprintf("%d-%d selects %d paths", m, d, len(fp)))
+				continue
+			}
+			var used []*ssa.IndexAddr
+			for _, ia := range lookups {
+				for _, b := range fp[0].blocks {
+					if b == ia.Block() {
+						used = append(used, ia)
+					}
+				}
+			}
+			if len(used) != 1 {
+				problems = append(problems, fmt.Sprintf("%d-%d passes %d XINGZUO lookups", m, d, len(used)))
+				continue
+			}
+			k, ok := evalSSA(fp[0], used[0].Index, leaf, 0)
+			ki, isI := k.(int64)
+			if !ok || !isI {
+				problems = append(problems, "sign index is not evaluable on some path")
+				continue
+			}
+			sign[m*100+d] = int(ki)
 		}
 	}
 	if len(problems) > 0 {
@@ -215,39 +205,70 @@ func evalNumExpr(v ssa.Value, leaf func(ssa.Value) (float64, bool), depth int) (
 
 func r20_2(c *Ctx, r *Report) {
 	const rule = "R20.2"
-	r.rule(rule, "Festival keys. Fixed-date festivals are looked up under \"%d-%d\" of (month, day); k-th-weekday festivals under \"%d-%d-%d\" of (month, occurrence, weekday) where the occurrence expression equals ceil(day/7) for every day 1..31 (evaluated symbolically over the 31 days); last-weekday festivals under \"%d-0-%d\" exactly when day + 7 > GetDaysOfMonth(year, month) of the receiver's own year and month; the key grammars match the tables (R08.7).")
+	r.rule(rule, "Festival keys. In Solar.GetFestivals every lookup in SolarUtil.FESTIVAL uses a key composed as month-day of the receiver, and the lookups in SolarUtil.WEEK_FESTIVAL use month-occurrence-weekday and month-0-weekday, whatever way the key is composed (Sprintf with plain %d verbs, strconv.Itoa and concatenation are read as templates); the occurrence expression equals ceil(day/7) for every day 1..31, the weekday is the receiver's own GetWeek, and the month-0-weekday lookup is reached exactly when day + 7 > GetDaysOfMonth(own year, own month), decided by evaluating the branch conditions for every day 1..31 and month length 28..31; the key grammars match the tables (R08.7).")
 	fn := c.Fn(r, rule, "calendar.(*Solar).GetFestivals")
 	if fn == nil {
 		return
 	}
-	formats := map[string][]string{}
-	var occ ssa.Value
-	for _, b := range fn.Blocks {
-		for _, ins := range b.Instrs {
-			if _, f, args, ok := sprintfCall(valueOf(ins)); ok {
-				var as []string
-				for i, a := range args {
-					d := describeArg(c, fn, a)
-					as = append(as, d)
-					if f == "%d-%d-%d" && i == 1 {
-						occ = a
-					}
-				}
-				formats[f] = as
-			}
+	recv := ssa.Value(fn.Params[0])
+	describe := func(v ssa.Value) string {
+		if call, ok := v.(*ssa.Call); ok && call.Common().StaticCallee() != nil && fname(call.Common().StaticCallee()) == "calendar.(*Solar).GetWeek" && call.Common().Args[0] == recv {
+			return "p0.GetWeek()"
+		}
+		return describeArg(c, fn, v)
+	}
+	// fixed-date keys
+	fixed := mapLookups(fn, "SolarUtil.FESTIVAL")
+	var got []string
+	okFixed := len(fixed) > 0
+	for _, lk := range fixed {
+		t, ok := keyTemplate(lk.Index, 0)
+		ts := "(not a composed key)"
+		if ok {
+			ts = templateString(t, describe)
+		}
+		got = append(got, ts)
+		if ts != "{p0.month}-{p0.day}" {
+			okFixed = false
 		}
 	}
-	okFixed := equalStrs(formats["%d-%d"], []string{"p0.month", "p0.day"})
-	r.check(okFixed, rule, "calendar.(*Solar).GetFestivals keys fixed-date festivals by month-day", c.fnPos(fn), fmt.Sprintf("%v", formats["%d-%d"]))
-	kth := formats["%d-%d-%d"]
-	last := formats["%d-0-%d"]
-	r.check(len(kth) == 3 && kth[0] == "p0.month" && len(last) == 2 && last[0] == "p0.month", rule, "calendar.(*Solar).GetFestivals keys weekday festivals by month-occurrence-weekday and month-0-weekday", c.fnPos(fn), fmt.Sprintf("k-th: %v; last: %v", kth, last))
+	r.check(okFixed, rule, "calendar.(*Solar).GetFestivals keys fixed-date festivals by month-day", c.fnPos(fn), fmt.Sprintf("FESTIVAL lookups with keys %v", got))
+	// weekday keys
+	var kth, last []*ssa.Lookup
+	var occ ssa.Value
+	var other []string
+	for _, lk := range mapLookups(fn, "SolarUtil.WEEK_FESTIVAL") {
+		t, ok := keyTemplate(lk.Index, 0)
+		if !ok {
+			other = append(other, "(not a composed key)")
+			continue
+		}
+		occName := ""
+		ts := templateString(t, func(v ssa.Value) string {
+			d := describe(v)
+			if strings.HasPrefix(d, "?") {
+				occ = v
+				occName = d
+				return "occurrence"
+			}
+			return d
+		})
+		switch ts {
+		case "{p0.month}-{occurrence}-{p0.GetWeek()}":
+			kth = append(kth, lk)
+		case "{p0.month}-0-{p0.GetWeek()}":
+			last = append(last, lk)
+		default:
+			other = append(other, ts+" "+occName)
+		}
+	}
+	r.check(len(kth) == 1 && len(last) == 1 && len(other) == 0, rule, "calendar.(*Solar).GetFestivals keys weekday festivals by month-occurrence-weekday and month-0-weekday", c.fnPos(fn), fmt.Sprintf("%d k-th lookups, %d last lookups, other keys %v", len(kth), len(last), other))
 	// occurrence == ceil(day/7)
-	if occ != nil {
+	if len(kth) == 1 && occ != nil {
 		var bad []string
 		for d := 1; d <= 31; d++ {
 			got, ok := evalNumExpr(occ, func(v ssa.Value) (float64, bool) {
-				if _, f, ok := getterField(c, v); ok && f == "Solar.day" {
+				if rc, f, ok := getterField(c, v); ok && f == "Solar.day" && rc == recv {
 					return float64(d), true
 				}
 				return 0, false
@@ -265,29 +286,51 @@ func r20_2(c *Ctx, r *Report) {
 	} else {
 		r.bad(rule, "the occurrence index is ceil(day/7)", c.fnPos(fn), "occurrence argument not found (undecided = fail)")
 	}
-	// weekday argument is GetWeek of the receiver
-	wk := false
-	for _, b := range fn.Blocks {
-		for _, ins := range b.Instrs {
-			if call, ok := ins.(*ssa.Call); ok && call.Common().StaticCallee() != nil && fname(call.Common().StaticCallee()) == "calendar.(*Solar).GetWeek" && call.Common().Args[0] == ssa.Value(fn.Params[0]) {
-				wk = true
+	// the last-occurrence lookup is reached iff day + 7 > days of the month
+	construct := "the last-occurrence key is used iff day + 7 > days of the month"
+	paths, okp := enumPaths(fn.Blocks[0], nil, 4096)
+	if !okp || len(last) != 1 {
+		r.bad(rule, construct, c.fnPos(fn), "GetFestivals is not loop-free or has no single month-0-weekday lookup (undecided = fail)")
+		return
+	}
+	var bad []string
+	n := 0
+	for d := int64(1); d <= 31; d++ {
+		for dim := int64(28); dim <= 31; dim++ {
+			if d > dim {
+				continue
+			}
+			leaf := func(v ssa.Value) (interface{}, bool) {
+				if rc, f, ok := getterField(c, v); ok && rc == recv && f == "Solar.day" {
+					return d, true
+				}
+				if call, ok := v.(*ssa.Call); ok && call.Common().StaticCallee() != nil && fname(call.Common().StaticCallee()) == "SolarUtil.GetDaysOfMonth" {
+					if describeArg(c, fn, call.Common().Args[0]) == "p0.year" && describeArg(c, fn, call.Common().Args[1]) == "p0.month" {
+						return dim, true
+					}
+				}
+				return nil, false
+			}
+			cp, _ := consistentPaths(paths, leaf)
+			may, must := false, len(cp) > 0
+			for _, p := range cp {
+				if p.passes(last[0].Block()) {
+					may = true
+				} else {
+					must = false
+				}
+			}
+			n++
+			want := d+7 > dim
+			if want && !must {
+				bad = append(bad, fmt.Sprintf("day %d of a %d-day month: the last-occurrence lookup is not reached", d, dim))
+			}
+			if !want && may {
+				bad = append(bad, fmt.Sprintf("day %d of a %d-day month: the last-occurrence lookup is reached although %d more days of that weekday follow", d, dim, (dim-d)/7))
 			}
 		}
 	}
-	r.check(wk, rule, "the weekday in the key is the receiver's own weekday", c.fnPos(fn), "solar.GetWeek()")
-	// last-occurrence test
-	lastOK := false
-	for _, b := range fn.Blocks {
-		iff, ok := b.Instrs[len(b.Instrs)-1].(*ssa.If)
-		if !ok {
-			continue
-		}
-		s := symExpr(c, iff.Cond, nil, map[ssa.Value]string{}, 0)
-		if s == "((7 + solar.day) > SolarUtil.GetDaysOfMonth(solar.year,solar.month))" {
-			lastOK = true
-		}
-	}
-	r.check(lastOK, rule, "the last-occurrence key is used iff day + 7 > days of the month", c.fnPos(fn), "day + 7 > GetDaysOfMonth(year, month) on the receiver's own fields")
+	r.check(len(bad) == 0 && n > 100, rule, construct, c.pos(last[0].Pos()), fmt.Sprintf("%d (day, month length) cases over %d paths; deviations: %v", n, len(paths), headList(bad, 4)))
 }
 
 func r20_3(c *Ctx, r *Report) {
